@@ -151,7 +151,7 @@ Proof.
   split; [discriminate|]. split; [repeat constructor; vm_compute; reflexivity|].
   split; [intros m [<-|[<-|[]]]; vm_compute; split; congruence|].
   split; [vm_compute; reflexivity|]. split; [split; vm_compute; reflexivity|].
-  eexists. split; vm_compute; reflexivity.
+  eexists. split; [vm_compute; reflexivity|]. vm_compute. reflexivity.
 Qed.
 Example C05_nonvacuous_legacy_whole_ms :
   let ms := [ {| i_off := 0; i_ns := 1600000000000000000; i_key := Some []; i_val := None; i_hdrs := [([107%N], Some [])] |};
